@@ -1,2 +1,8 @@
 import DeriveExModel.Tok
 import DeriveExModel.Syntax
+import DeriveExModel.Core
+import DeriveExModel.Cmp
+import DeriveExModel.Basic
+import DeriveExModel.ItemImpl
+import DeriveExModel.Entry
+import DeriveExModel.Gen
